@@ -69,11 +69,11 @@ def _target_names(t: ast.AST) -> Optional[List[str]]:
     return None
 
 
-def evaluate(prog: Program, f: Func, e: ast.AST, depth: int = 0) -> Optional[PerBloc]:
+def evaluate(prog: Program, f: Func, e: ast.AST, depth: int = 0, at: Optional[ast.AST] = None) -> Optional[PerBloc]:
     if depth > 8 or e is None:
         return None
     if isinstance(e, ast.Call) and astx.u(e.func) in ("list", "tuple") and len(e.args) == 1:
-        return evaluate(prog, f, e.args[0], depth + 1)
+        return evaluate(prog, f, e.args[0], depth + 1, at)
     if isinstance(e, ast.Attribute) and astx.is_name(e.value, "self") and f.cls is not None:
         hits = []
         for c in f.cls.mro():
@@ -90,6 +90,11 @@ def evaluate(prog: Program, f: Func, e: ast.AST, depth: int = 0) -> Optional[Per
         defs = astx.defs_of(f.node, e.id)
         if len(defs) == 1 and defs[0][1] is not None:
             return evaluate(prog, f, defs[0][1], depth + 1)
+        if len(defs) > 1 and at is not None:
+            # re-bound list (p = [g(x) for x in p]): the binding that reaches the use, itself evaluated at its own position
+            rd = astx.reaching_defs(f.node, e.id, at)
+            if len(rd) == 1 and rd[0][1] is not None and rd[0][0] is not at:
+                return evaluate(prog, f, rd[0][1], depth + 1, at=rd[0][0])
         # x = [] ; for v in S: x.append(e1); x.append(e2)
         if len(defs) == 1 or not defs:
             return None
@@ -108,7 +113,7 @@ def evaluate(prog: Program, f: Func, e: ast.AST, depth: int = 0) -> Optional[Per
                 return PerBloc(astx.u(gens[0].iter), v[0], [subst(e.elt, {t[0]: lab}) for lab in labels], f)
             return None
         if len(gens) == 1:
-            inner = evaluate(prog, f, gens[0].iter, depth + 1)
+            inner = evaluate(prog, f, gens[0].iter, depth + 1, at)
             names = _target_names(gens[0].target)
             if inner is None or names is None:
                 return None
@@ -150,8 +155,8 @@ def evaluate_appends(prog: Program, f: Func, name: str) -> Optional[PerBloc]:
     return PerBloc(astx.u(lp.iter), v[0], [c.args[0] for c in apps], f)
 
 
-def evaluate_any(prog: Program, f: Func, e: ast.AST) -> Optional[PerBloc]:
-    r = evaluate(prog, f, e)
+def evaluate_any(prog: Program, f: Func, e: ast.AST, at: Optional[ast.AST] = None) -> Optional[PerBloc]:
+    r = evaluate(prog, f, e, 0, at)
     if r is None and isinstance(e, ast.Name):
         r = evaluate_appends(prog, f, e.id)
     return r
